@@ -225,7 +225,6 @@ func TestVerifC37(t *testing.T) {
 	targets := []wire.Target{
 		{Name: "handler(traffic/traffic) peer unknown", Cases: cases, Run: mk("traffic", false, false)},
 		{Name: "handler(traffic/traffic) peer known", Cases: cases, Run: mk("traffic", true, false)},
-		{Name: "handler(traffic/traffic) after a valid cheque", Cases: cases, Run: mk("traffic", true, true)},
 		{Name: "handler(traffic/init) peer unknown", Cases: cases, Run: mk("init", false, false)},
 		{Name: "handler(traffic/init) peer known", Cases: cases, Run: mk("init", true, false)},
 		{Name: "client(ConnectOut init) peer unknown", Cases: cases, Run: func(x *mc.X, c wire.Case) string {
@@ -234,12 +233,17 @@ func TestVerifC37(t *testing.T) {
 			n.followUp()
 			return wire.ErrClass(err)
 		}},
-		{Name: "client(ConnectOut init) peer known", Cases: cases, Run: func(x *mc.X, c wire.Case) string {
+	}
+	if mc.Thorough() {
+		targets = append(targets,
+			wire.Target{Name: "handler(traffic/traffic) after a valid cheque", Cases: cases, Run: mk("traffic", true, true)},
+			wire.Target{Name: "client(ConnectOut init) peer known", Cases: cases, Run: func(x *mc.X, c wire.Case) string {
 			n := c37NewNode(x, c.Data, true)
 			err := n.proto.Protocol().ConnectOut(context.Background(), c37Peer)
 			n.followUp()
 			return wire.ErrClass(err)
 		}},
+		)
 	}
 	wire.Explore(t, func(cfg mc.Config, body func(*mc.X)) { mc.Run(t, cfg, body) }, "C37-traffic", map[string]interface{}{
 		"alphabet": "EmitCheque: standard framing/wire faults + full product address{valid,absent,empty,1,19,21,40,other,64KiB} x SignedCheque JSON{valid, our own cheque, absent, empty, null, {}, [], string, number, true, 1000-deep nesting, garbage, 4 strict prefixes, CumulativePayout in 13 raw values, Signature in 9, Recipient/Beneficiary in 10 each, validly signed cheques with payout 0/-5/2^300}; node states: peer's beneficiary unknown / known / known with an accepted cheque",
